@@ -155,8 +155,9 @@ pub fn gen(seed: u64, idx: u64, _tier: Tier) -> Case {
                 c.ops.push(Op::Entry(path.clone()));
                 c.ops.push(Op::Exists(path.clone()));
                 if rng.chance(1, 3) {
-                    // create_storage_all with an invalid component in the middle
-                    let deep = format!("{}/ok{}/{}", parent, i, name);
+                    // create_storage_all with a fresh ancestor, then the (possibly invalid) name,
+                    // last or in the middle
+                    let deep = if rng.chance(1, 2) { format!("{}/ok{}/{}", parent, i, name) } else { format!("{}/ok{}/{}/leaf", parent, i, name) };
                     c.ops.push(Op::CreateStorageAll(deep));
                     c.ops.push(Op::Exists(format!("{}/ok{}", parent, i)));
                 }
